@@ -29,35 +29,20 @@ Qed.
 Theorem missing_root_rejected fs root : lookup root (fs_files fs) = None -> outcome fs root = None.
 Proof. intros H. unfold outcome, loaded. rewrite (load_missing_root fs root H). reflexivity. Qed.
 
-Theorem init_once_partial fs root tr : wf_fs fs -> outcome fs root = Some tr -> NoDup (einits tr).
-Proof. intros Hwf Hout. destruct (outcome_some _ _ _ Hout) as [-> _]. apply init_once; exact Hwf. Qed.
+Theorem init_once_full fs root tr : outcome fs root = Some tr -> NoDup (einits tr).
+Proof. intros Hout. destruct (outcome_some _ _ _ Hout) as [-> _]. apply init_once. Qed.
 
-Theorem init_covers_partial fs root tr : wf_fs fs -> outcome fs root = Some tr -> forall q,
+Theorem init_covers_full fs root tr : outcome fs root = Some tr -> forall q,
   In (EInit q) tr <-> exists m, In m (main_targets fs root) /\ reach (graph fs root) m q.
-Proof. intros Hwf Hout. destruct (outcome_some _ _ _ Hout) as [-> _]. apply init_covers; exact Hwf. Qed.
+Proof. intros Hout. destruct (outcome_some _ _ _ Hout) as [-> _]. apply init_covers. Qed.
 
-Theorem init_deps_first_partial fs root tr : wf_fs fs -> outcome fs root = Some tr -> forall l1 q l2 q',
+Theorem init_deps_first_full fs root tr : outcome fs root = Some tr -> forall l1 q l2 q',
   tr = l1 ++ EInit q :: l2 -> In q' (graph fs root q) -> In (EInit q') l1.
-Proof. intros Hwf Hout. destruct (outcome_some _ _ _ Hout) as [-> _]. apply init_deps_first; exact Hwf. Qed.
+Proof. intros Hout. destruct (outcome_some _ _ _ Hout) as [-> _]. apply init_deps_first. Qed.
 
-Theorem init_before_following_code_partial fs root tr : wf_fs fs -> outcome fs root = Some tr -> forall s1 i s2,
+Theorem init_before_following_code_full fs root tr : outcome fs root = Some tr -> forall s1 i s2,
   src_of fs root = s1 ++ SImport i :: s2 ->
   (exists tr2, tr = prefix_trace fs root (s1 ++ [SImport i]) ++ tr2) /\
   forall m x, In m (match lookup (i_line i) (main_res fs root) with Some ms => ms | None => [] end) ->
               reach (graph fs root) m x -> In (EInit x) (prefix_trace fs root (s1 ++ [SImport i])).
-Proof. intros Hwf Hout. destruct (outcome_some _ _ _ Hout) as [-> _]. apply init_before_following_code; exact Hwf. Qed.
-
-Theorem init_once_refuted :
-  exists fs root tr q, outcome fs root = Some tr /\ einits tr = [q; q; q].
-Proof. exists fs_loop, 1%N. eexists. exists 2%N. split; [exact init_once_refuted_witness|reflexivity]. Qed.
-
-Theorem init_never_refuted :
-  exists fs root tr q n, outcome fs root = Some tr /\ In q (main_targets fs root) /\ In (EVal q n false) tr /\ einits tr = [].
-Proof.
-  exists fs_never, 1%N. eexists. exists 2%N, 5%N. split; [exact init_never_refuted_witness|].
-  split; [vm_compute; tauto|split; [right; left; reflexivity|reflexivity]].
-Qed.
-
-Theorem init_in_function_body_refuted :
-  exists fs root tr q, outcome fs root = Some tr /\ einits tr = [q; 3%N; q; q].
-Proof. exists fs_fnbody, 1%N. eexists. exists 2%N. split; [exact init_fnbody_refuted_witness|reflexivity]. Qed.
+Proof. intros Hout. destruct (outcome_some _ _ _ Hout) as [-> _]. apply init_before_following_code. Qed.
